@@ -22,3 +22,18 @@ _P["level_text"] += (
     "Not proved: that distance mode inverts arc mode (reverted series + Newton step: correspondence and oracle only), the longitude and area formulas "
     "(correspondence and oracle only).")
 _P["technique"] = "Lean 4 table certificates, exact-real theorems about an executable model of the series solver, model correspondence with a computed running-error tolerance, quadrature-oracle correspondence"
+
+# the harness compiles $GV_REPO/tools/GeodSolve.cpp into itself (harness/C01_tool.hpp): include path of the usage stub, and a cache key
+# that depends on the tool's text (the generic key covers only the library and the harness sources)
+import hashlib as _hl, os as _os
+def _tools_digest():
+    h = _hl.sha256()
+    p = _os.path.join(_os.environ.get("GV_REPO", "/repo"), "tools", "GeodSolve.cpp")
+    try:
+        h.update(open(p, "rb").read())
+    except OSError:
+        h.update(b"missing")
+    return h.hexdigest()[:16]
+_verif = _os.path.dirname(_os.path.dirname(_os.path.dirname(_os.path.abspath(__file__))))
+_P["harnesses"] = [dict(name="C01", procs_quick=4, procs_thorough=16,
+                        extra=["-I" + _os.path.join(_verif, "harness", "C01_tools"), "-DGV_TOOLS_DIGEST=0x" + _tools_digest()])]
